@@ -208,6 +208,59 @@ func bitsetState(t *tree.Tree) string {
 	return state
 }
 
+// derivedDump prints the derived state of t: the tip index as the list of names ordered by tip id
+// (a name whose id is out of range or taken is flagged), and the bitset of every branch in Edges()
+// order as a 0/1 string over the tip ids ("nil" when absent).
+func derivedDump(t *tree.Tree) string {
+	out := ""
+	p, _ := core.Safe(func() {
+		tips := t.Tips()
+		byID := make([]string, len(tips))
+		okIdx := true
+		for _, tip := range tips {
+			id, err := t.TipIndex(tip.Name())
+			if err != nil || id < 0 || id >= len(tips) || byID[id] != "" {
+				okIdx = false
+				break
+			}
+			byID[id] = tip.Name() + "\x00"
+		}
+		if !okIdx {
+			out = "!index"
+			return
+		}
+		for i := range byID {
+			byID[i] = strings.TrimSuffix(byID[i], "\x00")
+		}
+		var bits []string
+		for _, e := range t.Edges() {
+			bs := e.Bitset()
+			if bs == nil {
+				bits = append(bits, "nil")
+				continue
+			}
+			b := make([]byte, len(tips))
+			for i := range b {
+				if bs.Test(uint(i)) {
+					b[i] = '1'
+				} else {
+					b[i] = '0'
+				}
+			}
+			if bs.Len() != uint(len(tips)) {
+				bits = append(bits, "len"+string(b))
+			} else {
+				bits = append(bits, string(b))
+			}
+		}
+		out = core.StrList(byID) + "/" + core.StrList(bits)
+	})
+	if p {
+		return "!panic"
+	}
+	return out
+}
+
 func pathStr(p []int) string { return core.IntList(p) }
 
 func parsePath(s string) []int {
@@ -330,6 +383,22 @@ func genTree(g *core.G, prefix string, rooted int) *core.N {
 	if rooted == 2 && g.Chance(0.25) {
 		n = rerooted(g, n)
 	}
+	if g.Chance(0.03) { // one tip without a name
+		var leaves []*core.N
+		var rec func(x *core.N)
+		rec = func(x *core.N) {
+			if len(x.Kids) == 0 {
+				leaves = append(leaves, x)
+			}
+			for _, k := range x.Kids {
+				rec(k)
+			}
+		}
+		rec(n)
+		if len(leaves) > 0 && prefix == "t" {
+			leaves[g.Intn(len(leaves))].Name = ""
+		}
+	}
 	core.NumberEdges(n)
 	return n
 }
@@ -356,7 +425,7 @@ func doGraft(c *core.Ctx, indexed bool, n *core.N, tip string, gn *core.N) {
 	}
 	ia := ""
 	if oc == "ok" {
-		ia = indexAnswers(t, append(n.TipNames(), gn.TipNames()...))
+		ia = indexAnswers(t, append(n.TipNames(), gn.TipNames()...)) + "||" + derivedDump(t)
 	}
 	c.Emit("C15.graft", b2s(indexed), n.Dump(), core.Escape(tip), gn.Dump(), oc, d, wf, ia)
 }
@@ -373,7 +442,7 @@ func doMerge(c *core.Ctx, i1, i2 bool, n1, n2 *core.N) {
 	}
 	ia := ""
 	if oc == "ok" {
-		ia = indexAnswers(t, append(n1.TipNames(), n2.TipNames()...)) + "|" + bitsetState(t)
+		ia = indexAnswers(t, append(n1.TipNames(), n2.TipNames()...)) + "|" + bitsetState(t) + "|" + derivedDump(t)
 	}
 	c.Emit("C15.merge", b2s(i1), b2s(i2), n1.Dump(), n2.Dump(), oc, d, wf, ia)
 }
@@ -389,7 +458,7 @@ func doInsid(c *core.Ctx, indexed bool, n *core.N, groups [][]string) {
 	}
 	ia := ""
 	if oc == "ok" {
-		ia = indexAnswers(t, n.TipNames()) + "|" + bitsetState(t)
+		ia = indexAnswers(t, n.TipNames()) + "|" + bitsetState(t) + "|" + derivedDump(t)
 	}
 	c.Emit("C15.insid", b2s(indexed), n.Dump(), core.StrLists(groups), oc, d, wf, ia)
 }
@@ -402,7 +471,11 @@ func doRmSingle(c *core.Ctx, indexed bool, n *core.N) {
 	if !p {
 		d, wf = read(t)
 	}
-	c.Emit("C15.rmsingle", b2s(indexed), n.Dump(), oc, d, wf)
+	dd := ""
+	if !p && indexed {
+		dd = derivedDump(t)
+	}
+	c.Emit("C15.rmsingle", b2s(indexed), n.Dump(), oc, d, wf, dd)
 }
 
 func doSubTree(c *core.Ctx, n *core.N, path []int) {
@@ -422,7 +495,7 @@ func doSubTree(c *core.Ctx, n *core.N, path []int) {
 	da, _ := read(t)
 	ia, sh := "", ""
 	if !p {
-		ia = indexAnswers(sub, n.TipNames()) + "|" + bitsetState(sub)
+		ia = indexAnswers(sub, n.TipNames()) + "|" + bitsetState(sub) + "|" + derivedDump(sub)
 		sh = sharedCells(t, sub)
 	}
 	c.Emit("C15.subtree", n.Dump(), pathStr(path), oc, d, wf, da, txt0, text(t), ia, sh)
@@ -457,7 +530,7 @@ func doClone(c *core.Ctx, indexed bool, setIds bool, n *core.N) {
 	if !p {
 		ia = indexAnswers(cl, n.TipNames())
 		if indexed {
-			ia += "|" + bitsetState(cl)
+			ia += "|" + bitsetState(cl) + "|" + derivedDump(cl)
 		}
 		sh = sharedCells(t, cl)
 	}
@@ -563,6 +636,13 @@ func insidCases(c *core.Ctx) {
 		n.Kids[0].E.Len = []float64{0, -1, 1.5}[g.Intn(3)]
 		n.Kids[0].E.Id = 0
 	}
+	if g.Chance(0.06) { // a tip without a name ("" is also the code's "no existing tip yet")
+		x := n
+		for len(x.Kids) > 0 {
+			x = x.Kids[g.Intn(len(x.Kids))]
+		}
+		x.Name = ""
+	}
 	tips := n.TipNames()
 	perm := g.R.Perm(len(tips))
 	ng := 1 + g.Intn(3)
@@ -640,6 +720,18 @@ func rmSingleCases(c *core.Ctx) {
 			n.Kids[0] = mid
 		}
 	}
+	if g.Chance(0.12) { // an unnamed root above a chain of single-child nodes (the root is then a tip named "")
+		top := n
+		for k := 1 + g.Intn(3); k > 0; k-- {
+			top.E = core.NewE()
+			top.E.Len = g.Length(&o)
+			if g.Chance(0.5) {
+				top.E.Sup = g.Support(&o)
+			}
+			top = &core.N{Kids: []*core.N{top}}
+		}
+		n = top
+	}
 	core.NumberEdges(n)
 	if g.Chance(0.3) {
 		n = rerooted(g, n)
@@ -662,6 +754,36 @@ func subTreeCases(c *core.Ctx) {
 	}
 	for _, p := range paths { // every node as subtree root
 		doSubTree(c, n, p)
+	}
+}
+
+func heapCases(c *core.Ctx) {
+	g := c.G
+	n := genTree(g, "t", 2)
+	o := opts(g)
+	if g.Chance(0.3) {
+		addSingles(g, &o, n, 0.15)
+	}
+	if g.Chance(0.1) {
+		n = rootTip(g, n, &o, "rt")
+	}
+	core.NumberEdges(n)
+	if g.Chance(0.3) {
+		n = rerooted(g, n)
+	}
+	if g.Chance(0.3) {
+		var inner [][]int
+		for _, q := range n.Paths() {
+			if len(n.At(q).Kids) > 0 {
+				inner = append(inner, q)
+			}
+		}
+		doHeapReroot(c, n, inner[g.Intn(len(inner))])
+	} else if g.Chance(0.5) {
+		doHeap(c, "clone", n, nil)
+	} else {
+		paths := n.Paths()
+		doHeap(c, "subtree", n, paths[g.Intn(len(paths))])
 	}
 }
 
@@ -700,6 +822,19 @@ func Replay(c *core.Ctx, lines []string) {
 			doSubTree(c, mustDump(f[1]), parsePath(f[2]))
 		case f[0] == "C15.clone" && len(f) >= 3:
 			doClone(c, f[1] == "1", true, mustDump(f[2]))
+		case f[0] == "C15.heap" && len(f) >= 4:
+			doHeap(c, f[1], mustDump(f[2]), parsePath(f[3]))
+		case f[0] == "C15.heapedit" && len(f) >= 4 && f[1] == "reroot":
+			doHeapReroot(c, mustDump(f[2]), parsePath(f[3]))
+		case f[0] == "C15.heapedit" && len(f) >= 8:
+			arg, _ := core.Unescape(f[3])
+			var n2 *core.N
+			if f[7] != "" {
+				n2 = mustDump(f[7])
+			}
+			doHeapOp(c, f[1], mustDump(f[2]), arg, n2)
+		case f[0] == "C15.glue":
+			// glue cases are regenerated by the CLI tier, not replayed
 		case f[0] == "C15.hist" && len(f) >= 6:
 			runHistory(c, f[1], f[2], mustDump(f[3]), parsePath(f[4]), parseStrList(f[5]), 0)
 		default:
@@ -732,6 +867,8 @@ func Run(c *core.Ctx) {
 		subTreeCases(c)
 		cloneCases(c)
 		cloneCases(c)
+		heapCases(c)
+		heapOpCases(c)
 	}
 	h := c.Scale(400, 7500)
 	for i := 0; i < h; i++ {
@@ -742,5 +879,284 @@ func Run(c *core.Ctx) {
 		for i := 0; i < m; i++ {
 			cliCases(c)
 		}
+		for i := 0; i < c.Scale(80, 1000); i++ {
+			glueCases(c)
+		}
+	}
+}
+
+// heapDump prints the pointer graph of a tree as cells with reference fields, in the layout of the
+// Lean heap model (Lemmas/C15HeapCopy.lean): Node [comment array, neigh array, br array], Edge [left,
+// right, comment array, bitset], an array cell holds its elements.  Cells are numbered in order of
+// first visit; a slice without capacity and a nil bitset count as a cell of their own (negative keys
+// per owner), as `make(…, 0)` / "no bitset yet" do in the model.  Format: "root;id=p.p.p;id=…".
+func heapDump(t *tree.Tree) string { return heapDumpOpt(t, false, true) }
+
+// heapDumpNoBits leaves the content of the bitsets out (operations that end with ReinitIndexes /
+// ReinitInternalIndexes recompute them; that part is compared by value elsewhere: derivedDump).
+func heapDumpNoBits(t *tree.Tree) string { return heapDumpOpt(t, false, false) }
+
+// heapRaw is heapDump with the addresses themselves: two readings are equal iff no cell of the tree was
+// replaced, added, dropped or rewired (Go's collector does not move heap objects).
+func heapRaw(t *tree.Tree) string { return heapDumpOpt(t, true, true) }
+
+func heapDumpOpt(t *tree.Tree, raw bool, withBits bool) string { return heapDumpMulti(raw, withBits, t) }
+
+// heapDumpMulti: several trees in one numbering (header "root,root;").
+func heapDumpMulti(raw bool, withBits bool, ts ...*tree.Tree) string {
+	ids := map[string]int{}
+	var order []string
+	cells := map[string][]string{}
+	data := map[string]uint32{} // the non-reference content of a cell, hashed (FNV-1a, 31 bits)
+	hash := func(parts ...string) uint32 {
+		h := uint32(2166136261)
+		for _, p := range parts {
+			for i := 0; i < len(p); i++ {
+				h ^= uint32(p[i])
+				h *= 16777619
+			}
+			h ^= 0xff
+			h *= 16777619
+		}
+		return h & 0x7fffffff
+	}
+	key := func(kind string, p uintptr) string { return fmt.Sprintf("%s%x", kind, p) }
+	id := func(k string) int {
+		if v, ok := ids[k]; ok {
+			return v
+		}
+		ids[k] = len(ids)
+		order = append(order, k)
+		return ids[k]
+	}
+	var visitNode func(n *tree.Node) string
+	visitEdge := func(e *tree.Edge) string {
+		k := key("e", reflect.ValueOf(e).Pointer())
+		if _, seen := cells[k]; seen {
+			return k
+		}
+		id(k)
+		cells[k] = nil
+		ck := k + "c"
+		if c := e.Comments(); cap(c) > 0 {
+			ck = key("a", reflect.ValueOf(c).Pointer())
+		}
+		id(ck)
+		if _, ok := cells[ck]; !ok {
+			cells[ck] = []string{}
+		}
+		bk := k + "b"
+		if bs := e.Bitset(); bs != nil {
+			bk = key("b", reflect.ValueOf(bs).Pointer())
+		}
+		id(bk)
+		if _, ok := cells[bk]; !ok {
+			cells[bk] = []string{}
+		}
+		data[k] = hash(core.Rat(e.Length()), core.Rat(e.Support()), core.Rat(e.PValue()), fmt.Sprint(e.Id()))
+		data[ck] = hash(e.Comments()...)
+		if bs := e.Bitset(); bs != nil && withBits {
+			data[bk] = hash(bs.String())
+		} else {
+			data[bk] = hash("nil")
+		}
+		cells[k] = []string{visitNode(e.Left()), visitNode(e.Right()), ck, bk}
+		return k
+	}
+	visitNode = func(n *tree.Node) string {
+		k := key("n", reflect.ValueOf(n).Pointer())
+		if _, seen := cells[k]; seen {
+			return k
+		}
+		id(k)
+		cells[k] = nil
+		ck := k + "c"
+		if c := n.Comments(); cap(c) > 0 {
+			ck = key("a", reflect.ValueOf(c).Pointer())
+		}
+		id(ck)
+		if _, ok := cells[ck]; !ok {
+			cells[ck] = []string{}
+		}
+		nk, bk := k + "n", k+"r"
+		if s := n.Neigh(); cap(s) > 0 {
+			nk = key("N", reflect.ValueOf(s).Pointer())
+		}
+		if s := n.Edges(); cap(s) > 0 {
+			bk = key("B", reflect.ValueOf(s).Pointer())
+		}
+		id(nk)
+		id(bk)
+		data[k] = hash(n.Name(), fmt.Sprint(n.Id()))
+		data[ck] = hash(n.Comments()...)
+		cells[k] = []string{ck, nk, bk}
+		var ne, be []string
+		cells[nk], cells[bk] = []string{}, []string{}
+		for _, m := range n.Neigh() {
+			ne = append(ne, visitNode(m))
+		}
+		for _, e := range n.Edges() {
+			be = append(be, visitEdge(e))
+		}
+		cells[nk], cells[bk] = ne, be
+		return k
+	}
+	out := ""
+	p, _ := core.Safe(func() {
+		var b strings.Builder
+		var rks []string
+		for _, t := range ts {
+			rks = append(rks, visitNode(t.Root()))
+		}
+		for i, rk := range rks {
+			if i > 0 {
+				b.WriteByte(',')
+			}
+			fmt.Fprintf(&b, "%d", ids[rk])
+		}
+		b.WriteByte(';')
+		for _, k := range order {
+			if raw {
+				b.WriteString(k)
+				b.WriteByte(':')
+			}
+			fmt.Fprintf(&b, "%d:%d=", ids[k], data[k])
+			for i, q := range cells[k] {
+				if i > 0 {
+					b.WriteByte('.')
+				}
+				fmt.Fprintf(&b, "%d", ids[q])
+			}
+			b.WriteByte(';')
+		}
+		out = b.String()
+	})
+	if p {
+		return "PANIC"
+	}
+	return out
+}
+
+// doHeap: the pointer graph of the source before, and of the copy after, Clone / SubTree.
+func doHeap(c *core.Ctx, kind string, n *core.N, path []int) {
+	t := build(n, true)
+	dump := heapDump
+	if kind != "clone" { // SubTree ends with ReinitIndexes on the copy
+		dump = heapDumpNoBits
+	}
+	before := dump(t)
+	var cp *tree.Tree
+	p, msg := core.Safe(func() {
+		if kind == "clone" {
+			cp = t.Clone()
+		} else {
+			node, _, err := core.NodeAt(t, path)
+			if err != nil {
+				panic(err)
+			}
+			cp = t.SubTree(node)
+		}
+	})
+	if p {
+		c.Emit("C15.heap", kind, n.Dump(), pathStr(path), "panic:"+core.Escape(msg), before, "")
+		return
+	}
+	c.Emit("C15.heap", kind, n.Dump(), pathStr(path), "ok", before, dump(cp))
+}
+
+// doHeapReroot: the pointer graph before and after the real Reroot at the node addressed by path.
+func doHeapReroot(c *core.Ctx, n *core.N, path []int) {
+	t := build(n, true)
+	before := heapDumpNoBits(t) // Reroot ends with ReinitInternalIndexes
+	node, _, err := core.NodeAt(t, path)
+	if err != nil {
+		panic(err)
+	}
+	var rerr error
+	p, msg := core.Safe(func() { rerr = t.Reroot(node) })
+	c.Emit("C15.heapedit", "reroot", n.Dump(), pathStr(path), outcome(p, msg, rerr), before, heapDumpNoBits(t))
+}
+
+// doHeapOp: the pointer graph before and after one of the anchored operations, for the statement-by-
+// statement heap programs of Lemmas/C15HeapEdits.lean (shape only: the programs do not compute lengths).
+func doHeapOp(c *core.Ctx, op string, n *core.N, arg string, n2 *core.N) {
+	t := build(n, true)
+	var t2 *tree.Tree
+	before := ""
+	if n2 != nil {
+		t2 = build(n2, true)
+		before = heapDumpMulti(false, false, t, t2)
+	} else {
+		before = heapDumpMulti(false, false, t)
+	}
+	var err error
+	p, msg := core.Safe(func() {
+		switch op {
+		case "graft":
+			err = t.GraftTreeOnTip(arg, t2)
+		case "merge":
+			err = t.Merge(t2)
+		case "rmsingle":
+			t.RemoveSingleNodes()
+		case "insid":
+			var tip *tree.Node
+			if tip, err = t.TipNode(arg); err == nil {
+				_, err = t.InsertIdenticalTip(tip, "zznew")
+			}
+		default:
+			panic("doHeapOp " + op)
+		}
+	})
+	d2 := ""
+	if n2 != nil {
+		d2 = n2.Dump()
+	}
+	c.Emit("C15.heapedit", op, n.Dump(), core.Escape(arg), outcome(p, msg, err), before, heapDumpNoBits(t), d2)
+}
+
+func heapOpCases(c *core.Ctx) {
+	g := c.G
+	switch g.Intn(4) {
+	case 3:
+		n := genTree(g, "t", 2)
+		o := opts(g)
+		addSingles(g, &o, n, 0.25)
+		if g.Chance(0.2) {
+			n = rootTip(g, n, &o, "rt")
+		}
+		core.NumberEdges(n)
+		if g.Chance(0.3) {
+			n = rerooted(g, n)
+		}
+		doHeapOp(c, "rmsingle", n, "", nil)
+	case 0:
+		n := genTree(g, "t", 2)
+		if g.Chance(0.15) {
+			o := opts(g)
+			n = rootTip(g, n, &o, "rt")
+			core.NumberEdges(n)
+		}
+		tips := n.TipNames()
+		doHeapOp(c, "graft", n, tips[g.Intn(len(tips))], graftTree(g))
+	case 1:
+		n1, n2 := genTree(g, "t", 1), genTree(g, "u", 1)
+		for _, n := range []*core.N{n1, n2} {
+			if len(n.Kids) > 2 {
+				in := &core.N{E: core.NewE(), Kids: n.Kids[1:]}
+				in.E.Len = 1
+				n.Kids = []*core.N{n.Kids[0], in}
+				core.NumberEdges(n)
+			}
+		}
+		doHeapOp(c, "merge", n1, "", n2)
+	default:
+		n := genTree(g, "t", 2)
+		if g.Chance(0.15) {
+			o := opts(g)
+			n = rootTip(g, n, &o, "rt")
+			core.NumberEdges(n)
+		}
+		tips := n.TipNames()
+		doHeapOp(c, "insid", n, tips[g.Intn(len(tips))], nil)
 	}
 }
